@@ -293,7 +293,7 @@ func (a *Account) Validate(acct *AccountClaims, vr *ValidationResults) {
 		// Check for wildcard restrictions
 		if !a.Limits.WildcardExports {
 			for _, ex := range a.Exports {
-				if ex.Subject.HasWildCards() {
+				if ex != nil && ex.Subject.HasWildCards() {
 					vr.AddError("the account contains wildcard exports that are not allowed by the operator")
 				}
 			}
